@@ -23,3 +23,6 @@ def run(prog, chk):
     # otherwise later relinks cut live nodes out of the tree (they stay in the list but are no longer reachable / get freed twice)
     C.parent_pairing(prog, chk, "C05.g", ("Map", "MultiMap"))
     C.unlink_idiom(prog, chk, "C05.h", tuple(C.NODE))
+    # a slot becomes reusable only after its element's destructor has run: an append made from inside that destructor (or any
+    # re-entrant use) otherwise constructs a new element over the one being destroyed
+    C.destroy_once(prog, chk, "C05.i", tuple(C.NODE))
